@@ -102,13 +102,13 @@ suboption), through every container option and relay level.  `WFMsg'` is the
 round-trip domain with fresh label sets of valid names allowed next to decoded
 ones (`LabelsOK'`); everything else as `WFMsg`. -/
 
-/-- a fresh label set becomes what decoding its encoding returns: same names,
-`original` = the bytes `labelsToBytes` emits for them; a set that already has
-its `original` stays as it is -/
+/-- a label set becomes what decoding its encoding returns: same names,
+`original` = the bytes `ToBytes` emits for the set as it is now.  For a fresh set
+(`original = nil`) and for a decoded set whose names were EDITED since, these
+are `labelsToBytes names`; for a decoded, untouched set they are the bytes it
+was parsed from (so the set stays as it is: `normLabels_of_LabelsOK`). -/
 def normLabels (l : Label.Labels) : Label.Labels :=
-  match l.original with
-  | none => { original := some (Label.labelsToBytes l.labels), labels := l.labels }
-  | some _ => l
+  { original := some l.toBytes, labels := l.labels }
 
 def normNTP : NTPSub → NTPSub
   | .srvFQDN l => .srvFQDN (normLabels l)
@@ -159,10 +159,15 @@ def normMsg : Msg6 → Msg6
   | .relay t h link peer os => .relay t h link peer (normOpts os)
 end
 
-/-- decoded form, or fresh with valid names (C19's `ValidName`: 1..63-octet
-labels without dots inside, at most 253 characters, not empty) -/
+/-- decoded form; or valid names (C19's `ValidName`: 1..63-octet labels without
+dots inside, at most 253 characters, not empty) in a set that is fresh
+(`original = nil`) or was decoded from SOME bytes and had its names edited,
+replaced, dropped or added since — every state of a `Labels` value reachable
+through the exported API (`original` is unexported: it is nil or what a
+successful `FromBytes` stored) with valid names in it -/
 def LabelsOK' (l : Label.Labels) : Prop :=
-  LabelsOK l ∨ (l.original = none ∧ Spec.Name.ValidNames l.labels)
+  LabelsOK l ∨ (Spec.Name.ValidNames l.labels ∧
+    (l.original = none ∨ ∃ b ns0, l.original = some b ∧ Label.labelsFromBytes b = .ok ns0))
 
 def NTPSubOK' : NTPSub → Prop
   | .srvFQDN l => LabelsOK' l ∧ l.labels.length = 1
